@@ -364,6 +364,71 @@ static void long_family(void)
         }
 }
 
+/* value family: the rendering of single values - integers around every width boundary, double bit patterns (sign, exponent extremes,
+ * NaN / infinity / subnormal / -0.0), every byte value inside strings, names and bytes (hex pairs), every small length -
+ * carried as {"A":v} and [v] */
+static vf_doc VD;
+static void vcarrier_begin(int form) { vf_b_reset(&VD); if (form == 0) { vf_b_open(&VD, VK_OBJ); vf_b_name(&VD, "A", 1); } else vf_b_open(&VD, VK_ARR); }
+static void vcarrier_end(const char *lab) { vf_b_close(&VD); run_valid(&VD, lab); }
+static void value_family(void)
+{
+    char lab[96];
+    for (int k = 0; k < 64; k++) {
+        if (!take()) continue;
+        for (int d = -2; d <= 2; d++) for (int sgn = 0; sgn < 2; sgn++) {
+            uint64_t u = (1ULL << k) + (uint64_t) (int64_t) d;
+            int64_t v = (int64_t) (sgn ? (uint64_t) 0 - u : u);
+            snprintf(lab, sizeof lab, "integer %lld", (long long) v);
+            vcarrier_begin((k + d + sgn) & 1); vf_b_int(&VD, v); vcarrier_end(lab);
+        }
+    }
+    /* doubles: top 16 bits (sign, exponent, 4 mantissa bits) in steps, x 2 low patterns; C13 explores every capacity of renderings of up to 317 characters */
+    unsigned step = vf_g.thorough ? 8 : 128;
+    static const uint64_t low[] = { 0, 0x0000923456789abcULL };
+    for (uint64_t top = 0; top < 65536; top += step) {
+        if (!take()) continue;
+        if (vf_deadline_passed()) return;
+        for (int l = 0; l < 2; l++) {
+            uint64_t bits = (top << 48) | low[l];
+            snprintf(lab, sizeof lab, "double with bits %016llx", (unsigned long long) bits);
+            vcarrier_begin((int) ((top / step) & 1)); vf_b_dbits(&VD, bits); vcarrier_end(lab);
+        }
+    }
+    static const uint64_t special[] = { 0x8000000000000000ULL, 0x7ff0000000000000ULL, 0xfff0000000000000ULL, 0x7ff8000000000000ULL, 0xfff8000000000001ULL, 0x0000000000000001ULL,
+                                        0x800fffffffffffffULL, 0x7fefffffffffffffULL, 0xffefffffffffffffULL, 0x3fe0000000000000ULL, 0x3feffffffffff800ULL, 0x412e847fe0000000ULL };
+    for (size_t i = 0; i < sizeof special / sizeof special[0]; i++) {
+        if (!take()) continue;
+        snprintf(lab, sizeof lab, "double with bits %016llx", (unsigned long long) special[i]);
+        for (int form = 0; form < 2; form++) { vcarrier_begin(form); vf_b_dbits(&VD, special[i]); vcarrier_end(lab); }
+    }
+    /* every byte value inside a string, a name and a bytes value */
+    for (int b = 0; b < 256; b++) {
+        if (!take()) continue;
+        uint8_t one[1] = { (uint8_t) b }, mid[3] = { 'x', (uint8_t) b, 'y' }, two[2] = { (uint8_t) b, (uint8_t) (255 - b) };
+        snprintf(lab, sizeof lab, "byte value 0x%02x in string / name / bytes", b);
+        vcarrier_begin(0); vf_b_blob(&VD, VK_STR, one, 1); vcarrier_end(lab);
+        vcarrier_begin(1); vf_b_blob(&VD, VK_STR, mid, 3); vcarrier_end(lab);
+        vcarrier_begin(b & 1); vf_b_blob(&VD, VK_BYT, one, 1); vcarrier_end(lab);
+        vcarrier_begin(~b & 1); vf_b_blob(&VD, VK_BYT, two, 2); vcarrier_end(lab);
+        vf_b_reset(&VD); vf_b_open(&VD, VK_OBJ); vf_b_name(&VD, one, 1); vf_b_int(&VD, b); vcarrier_end(lab);
+        vf_b_reset(&VD); vf_b_open(&VD, VK_OBJ); vf_b_name(&VD, mid, 3); vf_b_bool(&VD, b & 1); vcarrier_end(lab);
+    }
+    /* every length 0..maxlen of a string, a bytes value and a name */
+    static uint8_t pay[2100];
+    for (size_t i = 0; i < sizeof pay; i++) pay[i] = (uint8_t) ('!' + i % 90);
+    size_t maxlen = vf_g.thorough ? 2050 : 270;
+    for (size_t l = 0; l <= maxlen; l++) {
+        if (!take()) continue;
+        if (vf_deadline_passed()) return;
+        snprintf(lab, sizeof lab, "payload length %zu", l);
+        LONGDOC = l > 300;
+        vcarrier_begin((int) (l & 1)); vf_b_blob(&VD, VK_STR, pay, l); vcarrier_end(lab);
+        vcarrier_begin((int) (~l & 1)); vf_b_blob(&VD, VK_BYT, pay, l); vcarrier_end(lab);
+        vf_b_reset(&VD); vf_b_open(&VD, VK_OBJ); vf_b_name(&VD, pay, l); vf_b_int(&VD, 7); vcarrier_end(lab);
+        LONGDOC = false;
+    }
+}
+
 static int N_DOC, N_DOC_PLAIN;
 static void worker(int w, int W, uint64_t start)
 {
@@ -375,6 +440,7 @@ static void worker(int w, int W, uint64_t start)
     fflush(stdout);
     if (dup2(outfd, 1) < 0) vf_die("dup2");
     long_family();
+    value_family();
     /* 1. all value kinds, small documents */
     static const int cls[] = { LC_INT8, LC_INTMIN, LC_DBL, LC_DBLBIG, LC_STR, LC_STR0, LC_STRNUL, LC_BYT0, LC_BYT, LC_BYT40, LC_TRUE, LC_FALSE, LC_OBJ, LC_ARR };
     static const vf_name names[] = { { (const uint8_t *) "A", 1 }, { (const uint8_t *) "B", 1 }, { (const uint8_t *) "C\0x", 3 } };
@@ -461,8 +527,10 @@ int main(int argc, char **argv)
     snprintf(bound, sizeof bound,
              "every valid object- and array-rooted document with <= %d value tokens over 12 printable leaf classes (int 1.., INT64_MIN, doubles incl. -1e308 = 316 characters, "
              "strings incl. empty and embedded NUL, bytes of 0/3/40, booleans) and with <= %d value tokens over {int, bytes, {}, []} (all separator contexts), names incl. one with an "
-             "embedded NUL; 40 documents with string / bytes / name payloads of 127..66000 bytes (capacities within 3 of every token boundary)%s",
-             N_DOC, N_DOC_PLAIN,
+             "embedded NUL; 40 documents with string / bytes / name payloads of 127..66000 bytes (capacities within 3 of every token boundary); single-value carriers {\"A\":v} / [v] for integers +-2^k+d (k<64, |d|<=2), "
+             "doubles with every %dth top-16-bit pattern x 2 mantissa patterns plus 12 special patterns (NaN, infinities, -0.0, subnormals, DBL_MAX), every byte value 0..255 inside a "
+             "string, a name and a bytes value, every string / bytes / name length 0..%d%s",
+             N_DOC, N_DOC_PLAIN, vf_g.thorough ? 8 : 128, vf_g.thorough ? 2050 : 270,
              P_C13 ? "; each x EVERY capacity 0..need+3 x nice{false,true} on an exact-size heap destination, NULL query with 3 stale sizes; every INVALID input among the framed hostile token "
                      "sequences and the one-deviation mutants of small documents x capacities {NULL,0,1,16,4096}"
                    : "; to_string with ample capacity and captured stdout of binson_parser_print, both compared byte for byte with the reference renderer");
